@@ -51,6 +51,9 @@ class Acc:
         self.viol_counts[key] += 1
         # keep full records for the first few of each key only
         kept = sum(1 for v in self.violations if (v["prop"], v["clause"], tuple(v["mechs"])) == key)
+        if isinstance(replay, dict):
+            replay.setdefault("observed", common.plain(detail))
+            replay.setdefault("clause", clause)
         if kept < 3 and len(self.violations) < self.max_viol:
             self.violations.append({"prop": prop, "clause": clause, "detail": common.plain(detail), "mechs": sorted(mechs), "replay": replay})
 
